@@ -126,10 +126,10 @@ def cases(draw, opts):
         spec = nano_power(spec)
         spec["_nano"] = True
     groups = sorted({n["group"] for n in spec["nodes"] if n["group"]})
-    if groups and draw(st.integers(0, 7)) == 5:
+    if groups and draw(st.integers(0, 3)) == 1:
         # any non-empty string names a group: blanks only, or text with surrounding blanks
         g = groups[draw(st.integers(0, len(groups) - 1))]
-        new = draw(st.sampled_from([" ", "  ", " " + g, g + " "]))
+        new = draw(st.sampled_from([" ", "  ", " ", " " + g, g + " "]))
         if new not in groups:
             for n in spec["nodes"]:
                 if n["group"] == g:
